@@ -40,6 +40,7 @@ type src struct {
 	watchErr bool
 	wa       dials.WatchArgs
 	typ      *dials.Type
+	wctx     context.Context // the context the Blank handed to Watch
 }
 
 func layer(t *dials.Type, v int) reflect.Value {
@@ -63,10 +64,11 @@ func (s staticSrc) Value(_ context.Context, t *dials.Type) (reflect.Value, error
 
 type watchSrc struct{ staticSrc }
 
-func (w watchSrc) Watch(_ context.Context, t *dials.Type, wa dials.WatchArgs) error {
+func (w watchSrc) Watch(ctx context.Context, t *dials.Type, wa dials.WatchArgs) error {
 	if w.s.watchErr {
 		return errors.New("watch failed")
 	}
+	w.s.wctx = ctx
 	w.s.wa = wa
 	w.s.typ = t
 	return nil
@@ -154,6 +156,16 @@ func run(raw json.RawMessage) driver.Result {
 					live = s2
 				}
 				ret = class(e1) + "; " + class(e2)
+			case "dd":
+				// Done with an already-expired context (may or may not be delivered: both arms of the
+				// select are ready), directly followed by Done with a live context: after both, the slot
+				// has certainly been signalled Done if the Blank still owned it
+				opTerms[i] = "OpDone"
+				ectx, ecancel := context.WithCancel(ctx)
+				ecancel()
+				blank.Done(ectx)
+				blank.Done(octx)
+				ret = "(Ok tt)"
 			case "done":
 				opTerms[i] = "OpDone"
 				blank.Done(octx)
@@ -174,6 +186,10 @@ func run(raw json.RawMessage) driver.Result {
 			deadAware = true
 		}
 		ocancel()
+		if live != nil && live.wctx != nil && live.wctx.Err() != nil {
+			direct = append(direct, fmt.Sprintf("op %d (%s): the context handed to the inner source's Watch ended with the SetSource call's context; it must be the context Dials gave the Blank", i, op))
+			live.wctx = nil
+		}
 		bv, bverr := blank.Value(ctx, typ)
 		bvTerm := "(Err 0)"
 		if bverr == nil {
@@ -194,12 +210,13 @@ func run(raw json.RawMessage) driver.Result {
 	}
 }
 
-var alphabet = []string{"sA", "sF", "wC", "wD", "done", "rep", "par"}
+var alphabet = []string{"sA", "sF", "wC", "wD", "done", "rep", "par", "dd"}
 
 func gen(r *coqfmt.Rng, n int, tier string) []json.RawMessage {
-	maxLen := 4
+	// exhaustive up to maxLen, plus a seeded random sample of longer histories
+	maxLen, nRandom, lo, hi := 3, 900, 4, 6
 	if tier == "thorough" {
-		maxLen = 5
+		maxLen, nRandom, lo, hi = 4, 6000, 5, 8
 	}
 	var out []json.RawMessage
 	var rec func(prefix []string)
@@ -216,13 +233,22 @@ func gen(r *coqfmt.Rng, n int, tier string) []json.RawMessage {
 		}
 	}
 	rec(nil)
+	for i := 0; i < nRandom; i++ {
+		l := lo + r.Intn(hi-lo+1)
+		ops := make([]string, l)
+		for j := range ops {
+			ops[j] = alphabet[r.Intn(len(alphabet))]
+		}
+		b, _ := json.Marshal(input{K: "rand", Ops: ops})
+		out = append(out, b)
+	}
 	return out
 }
 
 func main() {
 	driver.Main(driver.Engine{
 		Prop: "C20", CoqImport: "Dials.Check.C20BlankCheck", CoqRun: "run_cases",
-		Rule: "EXHAUSTIVE enumeration of all operation histories of length <= 4 (quick) / <= 5 (thorough) over {SetSource static, SetSource failing, SetSource watcher, SetSource watcher whose Watch fails, Done, report through the inner watcher's WatchArgs, two concurrent SetSource calls (slow static Value racing a watcher)} on a Blank inside a real Dials; non-trivial: contains a watcher and either a Done or a second SetSource",
+		Rule: "EXHAUSTIVE enumeration of all operation histories of length <= 3 (quick) / <= 4 (thorough) plus a seeded random sample of longer ones (900 of length 4-6 / 6000 of length 5-8) over {SetSource static, SetSource failing, SetSource watcher, SetSource watcher whose Watch fails, Done, report through the inner watcher's WatchArgs, two concurrent SetSource calls (slow static Value racing a watcher), Done with an expired context followed by Done} on a Blank inside a real Dials; non-trivial: contains a watcher and either a Done or a second SetSource",
 		Gen:  gen, Run: run, Parallel: 48,
 	})
 }
